@@ -79,8 +79,12 @@ pub fn domain(f: Family, k: Kind, refs: &Refs, level: u8) -> Vec<Vec<u8>> {
 			let mut x = v(&[
 				"", "/", ".", "..", "./", "../", "a", "/a", "a/", "/a/", "a/b", "a/./b", "a/x/../b", "a/b/.", "a/b/./", "a/b/c/..", "a/b/c/../", "/a/b", "/a/./b", "/a/x/../b",
 				"a//b", "a///b", "//a", "/./a", "/.//a", ".//a", "a/..", "/a/..", "a/../..", "/a/../..", "%61/b", "a/%62", "a/%2E/b", "a/%2e%2e/b", "a%2Fb", "./a:b", "a:b", "%FF/a",
-				"a/%C1%81", "a/A", "a/%41",
+				"a/%C1%81", "a/A", "a/%41", "/%2E%2E/..", "/%2e%2e/..", "x/%2E%2E/..", "/.%2E/..", "/z/..", "x/../..", "/%2E%2E/../a", "/a",
 			]);
+			// components longer than any fixed prefix a hash/compare shortcut might use
+			x.push(format!("/{}", "k".repeat(70)).into_bytes());
+			x.push(format!("/{}K", "k".repeat(69)).into_bytes());
+			x.push(format!("/{}%6B", "k".repeat(69)).into_bytes());
 			if f == Family::Iri {
 				x.extend(v(&["é/b", "%C3%A9/b"]));
 			}
@@ -113,6 +117,19 @@ pub fn domain(f: Family, k: Kind, refs: &Refs, level: u8) -> Vec<Vec<u8>> {
 				qs.push(Some(domains::b("%FF")));
 			}
 			let mut all: Vec<Vec<u8>> = domains::references(&schemes, &auths, &paths, &qs, &fs).into_iter().map(|(t, _)| t).collect();
+			// long components (70 bytes; two spellings and one near miss each)
+			let k70 = "k".repeat(70);
+			let k69 = "k".repeat(69);
+			for t in [
+				format!("s://h/p?{k70}"), format!("s://h/p?{k69}%6B"), format!("s://h/p?{k69}K"),
+				format!("s://h/p#{k70}"), format!("s://h/p#{k69}%6B"), format!("s://h/p#{k69}K"),
+				format!("s://{k70}/p"), format!("s://{k69}%6B/p"), format!("s://{k69}K/p"),
+				format!("s://{k70}@h/p"), format!("s://{k69}%6B@h/p"), format!("s://{k69}K@h/p"),
+				format!("s://h/{k70}"), format!("s://h/{k69}%6B"), format!("s://h/{k69}K"),
+				"s://h/%2E%2E/..".to_string(), "s://h/%2E%2E/../a".to_string(), "s://h/x/../a".to_string(),
+			] {
+				all.push(t.into_bytes());
+			}
 			// beyond the 16-segment inline buffer of the normalised-segment iterator
 			for lp in long_paths().into_iter().filter(|p| p.starts_with(b"/")) {
 				for pre in ["s://h", "s:"] {
@@ -124,6 +141,11 @@ pub fn domain(f: Family, k: Kind, refs: &Refs, level: u8) -> Vec<Vec<u8>> {
 			all
 		}
 	};
+	if matches!(k, Kind::Segment | Kind::UserInfo | Kind::Host | Kind::Query | Kind::Fragment) {
+		out.push("k".repeat(70).into_bytes());
+		out.push(format!("{}%6B", "k".repeat(69)).into_bytes());
+		out.push(format!("{}K", "k".repeat(69)).into_bytes());
+	}
 	out.retain(|t| refs.valid(f, k, t));
 	out.sort();
 	out.dedup();
@@ -263,7 +285,7 @@ fn cross_family_case(k: Kind, a: &[u8], b: &[u8]) -> Option<Violation> {
 	let (u, ir) = (crate::fam::uri::c07_pair_obs(k, a, b), crate::fam::iri::c07_pair_obs(k, a, b));
 	if let (crate::engine::Guard::Ok(u), crate::engine::Guard::Ok(ir)) = (u, ir) {
 		let whole = matches!(k, Kind::Ri | Kind::RiRef);
-		if u.eq != ir.eq || u.cmp != ir.cmp || (whole && (u.hash_a != ir.hash_a || u.hash_b != ir.hash_b)) {
+		if u.eq != ir.eq || u.cmp != ir.cmp || (whole && (u.hash_a != ir.hash_a || u.hash_b != ir.hash_b || u.chash_a != ir.chash_a || u.chash_b != ir.chash_b)) {
 			return Some(
 				Violation::new("C08", "cross-family", "uri-vs-iri-view", crate::fam::uri::c07_input(k, a, b))
 					.feat("type", format!("uri::{}", k.name()))
